@@ -32,6 +32,16 @@
 (*           d0[b] * scale + 10 * offset[ppm] at the scale / offset the    *)
 (*           vector x of this call describes (initial values if unfitted)  *)
 (*           -- never the values of an earlier call or of compute_fit time *)
+(*   setobs: the SAME optimizer is pointed at another observation          *)
+(*           (set_observed ; compile_params ; compute_fit -> new callbacks *)
+(*           ): d0 = base spectrum of the new observation, proj = the      *)
+(*           projection afterwards, keep[j] = 1 where the projected        *)
+(*           parameter lives on the forward model -- set_observed leaves   *)
+(*           those untouched (the new observation's own parameters start   *)
+(*           from their initial values); the fitted parameters, their      *)
+(*           order and their priors stay; every later `like` event is      *)
+(*           judged against the NEW observation (the oracle's residuals    *)
+(*           zs / data side dat8 are taken from it)                        *)
 (* A trace stops at its first rejected event (stateful); every rejected    *)
 (* tid is printed as <<"BAD", ..>>.                                        *)
 (***************************************************************************)
@@ -75,6 +85,11 @@ LikeOk(s, e) ==
           Abs(e.chi - SumSq(e.zs)) <= SumAbs(e.zs) + Len(e.zs) + 2        \* ValidEqualsGaussian (structure level)
     /\ (e.ret = "num" /\ e.oc = "ok") => \A m \in s.memo : m[1] = e.x => Abs(m[2] - e.chi) <= 1   \* NoCarryOver
 
+SetObsOk(s, e) ==
+    /\ Len(e.proj) = Len(s.proj) /\ Len(e.keep) = Len(s.proj)
+    /\ \A j \in 1..Len(s.proj) : e.keep[j] = 1 => Abs(e.proj[j] - s.proj[j]) <= 1
+    /\ (s.d0 = <<>>) = (e.d0 = <<>>)
+
 Init == l = 1 /\ tid = -1 /\ dead = -1
         /\ st = [kinds |-> <<>>, par |-> <<>>, nfit |-> 0, proj |-> <<>>, orole |-> <<>>, d0 |-> <<>>, off0 |-> 0, sc0 |-> 0,
                  memo |-> {}]
@@ -89,6 +104,10 @@ Step ==
                       off0 |-> e.off0, sc0 |-> e.sc0, memo |-> {}]
        ELSE IF e.tid = dead \/ e.tid # tid
        THEN UNCHANGED <<tid, st, dead>>
+       ELSE IF e.ev = "setobs"
+       THEN IF SetObsOk(st, e)
+            THEN st' = [st EXCEPT !.d0 = e.d0, !.proj = e.proj, !.memo = {}] /\ UNCHANGED <<tid, dead>>
+            ELSE Bad(e, "setobs") /\ dead' = e.tid /\ UNCHANGED <<tid, st>>
        ELSE IF e.ev = "prior"
        THEN IF PriorOk(st, e) THEN UNCHANGED <<tid, st, dead>>
             ELSE Bad(e, "prior") /\ dead' = e.tid /\ UNCHANGED <<tid, st>>
